@@ -524,7 +524,7 @@ Section Store.
 
   Lemma resolve_loop_ok fuel : forall st next added tr n log,
     full_ok st -> WellBehaved O reg tr ->
-    let '(o, st', _) := resolve_loop O veqb fuel st next added tr n log in
+    let '(o, st', _, _) := resolve_loop O veqb fuel st next added tr n log in
     full_ok st' /\ (forall t, o = ONoSolution t ->
                      exists id, build_derivation_tree (store st') id = Some t /\ terminal_at st' id).
   Proof.
@@ -621,8 +621,8 @@ Section Store.
   Qed.
 
   (* C06 / C02 for the model *)
-  Theorem resolve_store_valid fuel tr o st log :
-    WellBehaved O reg tr -> resolve O veqb fuel r rv tr = (o, st, log) ->
+  Theorem resolve_store_valid fuel tr o st log k :
+    WellBehaved O reg tr -> resolve O veqb fuel r rv tr = (o, st, log, k) ->
     (forall id i, nth_error (store st) id = Some i -> Valid O reg r rv (terms i))
     /\ (forall t, o = ONoSolution t -> forall a, ~ Solution a).
   Proof.
@@ -635,8 +635,8 @@ Section Store.
       exact (proj2 (proj2 (store_just_nth _ (proj1 (proj1 Hok)) id i Hi))).
   Qed.
 
-  Theorem resolve_nosolution_tree fuel tr t st log :
-    WellBehaved O reg tr -> resolve O veqb fuel r rv tr = (ONoSolution t, st, log) ->
+  Theorem resolve_nosolution_tree fuel tr t st log k :
+    WellBehaved O reg tr -> resolve O veqb fuel r rv tr = (ONoSolution t, st, log, k) ->
     store_just (store st) /\ exists id, build_derivation_tree (store st) id = Some t /\ terminal_at st id.
   Proof.
     intros Hwb E. unfold resolve in E.
